@@ -4,7 +4,7 @@
 # branching primitive as the library under test, so reference and implementation are compared on
 # exactly the same set of values per path.
 from symex.api import And, Or, Not, as_int, blist, bwrap, beq
-from symex.core import SInt, SBool
+from symex.core import SInt, SBool, unpack_uint
 
 
 class RefReject(Exception):
@@ -26,9 +26,7 @@ def rd_num(b, off, end):
         n = 8
     if off + 1 + n > end:
         raise RefReject('truncated number')
-    v = 0
-    for k in range(n):
-        v = v * 256 + b[off + 1 + k]
+    v = unpack_uint([b[off + 1 + k] for k in range(n)])
     if n == 2:
         short = v > 0xFC
     elif n == 4:
